@@ -152,6 +152,14 @@ def get_trace(res, cfg, workdir, prop_name):
     for pr in r["props"]:
         if pr.get("property") == prop_name and pr.get("status") == "FAILURE" and "trace" in pr:
             return P.extract_nondet(pr["trace"]), pr["trace"]
+    if ".unwind." in prop_name:
+        # unwinding assertions are created during symbolic execution, `--property` cannot name them:
+        # re-run over all properties with traces and pick this one
+        r = P.run_cbmc(res["goto"], cfg["unwind"], res["unwindset"], cfg["timeout"], cfg["mem_gb"], logp,
+                       extra=(cfg.get("cbmc_extra") or []), trace=True)
+        for pr in r["props"]:
+            if pr.get("property") == prop_name and pr.get("status") == "FAILURE" and "trace" in pr:
+                return P.extract_nondet(pr["trace"]), pr["trace"]
     return None, None
 
 
